@@ -23,6 +23,7 @@ TStep ==
   \/ IsEvent("lflush") /\ LFlush(E.h)
   \/ IsEvent("lreset") /\ LReset(E.h)
   \/ IsEvent("lclone") /\ LClone(E.h, E.g)
+  \/ IsEvent("lclonefrom") /\ \E f \in BOOLEAN : LCloneFrom(E.h, E.g, f)
   \/ IsEvent("ldrop") /\ \E f \in BOOLEAN : LDrop(E.h, f)
   \/ IsEvent("direct") /\ Direct(E.v)
   \/ IsEvent("lvinc") /\ LVInc(E.h, E.k, E.v)
